@@ -182,19 +182,25 @@ def candidate(layout, fn, attempt, dims, dyn):
     return inp
 
 
+ATTEMPTS = 16
+
+
 def find_witness(layout, fn, prog, dims, dyn, expect):
-    for attempt in range(64):
+    why = []
+    for attempt in range(ATTEMPTS):
         inp = candidate(layout, fn, attempt, dims, dyn)
         try:
             n, hints = count_nonzero_terms(prog, inp)
         except Fail as e:
-            print(f'gen_witness: {layout}.{fn} attempt {attempt}: {e}', file=sys.stderr)
+            why.append(str(e))
             continue
         if n != expect:
-            print(f'gen_witness: {layout}.{fn} attempt {attempt}: {n} of {expect} accumulate statements executed', file=sys.stderr)
+            why.append(f'{n} of {expect} accumulate statements executed')
             continue
         return inp, hints, attempt
-    raise SystemExit(f'gen_witness: no witness found for {layout}.{fn} (a coefficient position whose term is identically zero?)')
+    reasons = '; '.join(f'{w} ({why.count(w)}x)' for w in sorted(set(why)))
+    raise SystemExit(f'gen_witness: no witness found for {layout}.{fn} in {ATTEMPTS} random points: {reasons} '
+                     '-- a coefficient position whose term is identically zero, or an evaluator that always panics?')
 
 
 # ---- output --------------------------------------------------------------------------------------------
